@@ -154,7 +154,7 @@ def worker_main(argv):
     try:
         mod = importlib.import_module("vlib.checks." + modname)
         fn = getattr(mod, fname)
-        if job["cfg"] != "none":
+        if job["cfg"] != "none" and not job.get("nolib"):
             from . import bee2
             ctx.lib = bee2.Lib(job["cfg"], job.get("libdir"))
             ctx.lib.fill = job.get("fill", 0xA5)
@@ -538,8 +538,8 @@ class Run:
         if new:
             return 1
         if self.harness_errors:
-            for m in self.harness_errors[:10]:
-                print("INCONCLUSIVE/harness: " + m, file=sys.stderr)
+            for m in self.harness_errors[:6]:
+                print("INCONCLUSIVE/harness: " + m[-1200:], file=sys.stderr)
             return 2
         if self.evaluations < min_eval or distinct < 2:
             print("INCONCLUSIVE: too few cases observed (%d)" % self.evaluations, file=sys.stderr)
@@ -548,7 +548,7 @@ class Run:
 
 
 def _jobkey(job):
-    return {k: job[k] for k in ("cfg", "unit", "params", "seed", "tier", "fill") if k in job}
+    return {k: job[k] for k in ("cfg", "unit", "params", "seed", "tier", "fill", "nolib") if k in job}
 
 
 def replay(prop, path):
